@@ -156,6 +156,89 @@ class WLock:
         return False
 
 
+# ---- the only places where private proxy state is reached.  The lock and the persisted opener ARE what the property is
+# about and have no public accessor; they are looked up under several plausible names and, failing that, by what they
+# are (a lock-like object / an Opener instance in the instance dict).  When nothing is found the scenario is skipped
+# and recorded as degraded (the behavioural observations — results, recorded file events — still run elsewhere).
+LOCK_NAMES = ('_lock', 'lock', '_rlock', '_file_lock', '_read_lock', '_io_lock', '_fileobj_lock')
+OPENER_NAMES = ('_opener', 'opener', '_image_opener', '_persistent_opener', '_fileobj')
+
+
+def _locklike(v):
+    return hasattr(v, 'acquire') and hasattr(v, 'release') and hasattr(v, '__enter__') and hasattr(v, '__exit__')
+
+
+def lock_attr(p):
+    for n in LOCK_NAMES:
+        try:
+            v = getattr(p, n)
+        except Exception:  # noqa
+            continue
+        if _locklike(v):
+            return n
+    for n, v in list(getattr(p, '__dict__', {}).items()):
+        if _locklike(v):
+            return n
+    return None
+
+
+def get_lock(p):
+    n = lock_attr(p)
+    if n is None:
+        raise SkipScenario("the proxy's lock is not reachable under any known name")
+    return getattr(p, n)
+
+
+def set_lock(p, lk):
+    n = lock_attr(p)
+    if n is None:
+        raise SkipScenario("the proxy's lock is not reachable under any known name")
+    setattr(p, n, lk)
+
+
+def get_opener(p):
+    """The opener a path-based proxy keeps for its lifetime, or None."""
+    from nibabel.openers import Opener
+    for n in OPENER_NAMES:
+        v = getattr(p, n, None)
+        if isinstance(v, Opener):
+            return v
+    for v in list(getattr(p, '__dict__', {}).values()):
+        if isinstance(v, Opener):
+            return v
+    return None
+
+
+def patch_rlock_factory(factory):
+    """Make the RLock constructor as seen from nibabel.arrayproxy a factory; returns an undo function.  Found by what it
+    is, not by its name: any module global bound to threading.RLock, or the threading module itself (replaced by a shim)."""
+    import types
+    import nibabel.arrayproxy as _ap
+    real = threading.RLock
+    saved = {}
+    for n, v in list(vars(_ap).items()):
+        if v is real:
+            saved[n] = v
+            setattr(_ap, n, factory)
+        elif v is threading:
+            shim = types.ModuleType('threading_shim')
+            shim.__dict__.update(vars(threading))
+            shim.RLock = factory
+            saved[n] = v
+            setattr(_ap, n, shim)
+    if not saved:
+        raise SkipScenario('nibabel.arrayproxy has no visible reference to threading.RLock: lock creation cannot be observed')
+
+    def undo():
+        for n, v in saved.items():
+            setattr(_ap, n, v)
+    return undo
+
+
+class SkipScenario(Exception):
+    pass
+
+
 class AnyLock:
     """'is the calling thread inside ANY of the wrapped locks' — used when the harness does not know (and must not
     ask) which lock object a fresh proxy uses."""
@@ -165,6 +248,8 @@ class AnyLock:
         self.locks = locks
 
     def held(self):
+        if not self.locks:
+            return None               # no lock creation was observed: unknown, not 'unheld'
         return any(l.held() for l in self.locks)
 
 
@@ -448,10 +533,6 @@ def join_progs(ps):
 PATH_KINDS = {'kfo': (False, True), 'kfo_gz': (True, True), 'gz_def': (True, None), 'gz_false': (True, False)}
 
 
-class SkipScenario(Exception):
-    pass
-
-
 class Scenario:
     """Threads reading through proxies that share one file handle.
     threads: list of dict(proxy='orig'|'copy'|'copy2', reads=[ix...], outer=bool)
@@ -466,6 +547,7 @@ class Scenario:
             self.mmap.update(mmap)
         if kind not in ('handle', 'fresh'):
             self.mmap = {'orig': False, 'copy': False, 'copy2': False}
+        self.mmap['copy'] = self.mmap['copy2'] = self.mmap['orig']      # copy() passes the original's setting on
 
     def desc(self):
         return {'file': self.fs.desc(), 'kind': self.kind, 'mmap': self.mmap, 'nolock': self.nolock, 'p0': self.p0,
@@ -488,10 +570,8 @@ class Scenario:
             # A proxy nobody has touched: the harness neither replaces nor looks at proxy._lock.  Locks are observed
             # by making `RLock` as seen from nibabel.arrayproxy a factory of recording wrappers around real RLocks;
             # a creation made by a worker thread is itself a scheduling point (event N).
-            import nibabel.arrayproxy as _ap
             self.factory_locks = []
             real_rlock = threading.RLock
-            saved = _ap.RLock
 
             def factory():
                 rec.gate()
@@ -503,11 +583,7 @@ class Scenario:
                     return lk
                 finally:
                     rec.after()
-            _ap.RLock = factory
-
-            def unpatch():
-                _ap.RLock = saved
-            self.close = unpatch
+            self.close = patch_rlock_factory(factory)
             f = WFile(fs.bytes)
             f.rec, f.wlock = rec, AnyLock(self.factory_locks)
             self.fobj = f
@@ -519,7 +595,7 @@ class Scenario:
             f.rec, f.wlock = rec, self.wlock
             self.fobj = f
             orig = ArrayProxy(f, fs.par(), mmap=self.mmap['orig'], order=fs.order)
-            orig._lock = self.wlock
+            set_lock(orig, self.wlock)
         else:
             path = os.path.join(workdir, 'kfo_%s_%d.dat%s' % (fs.dtype.str[1:], fs.offset,
                                                                '.gz' if PATH_KINDS[self.kind][0] else ''))
@@ -533,12 +609,12 @@ class Scenario:
                         g.write(fs.bytes)
             kfo_arg = PATH_KINDS[self.kind][1]
             orig = ArrayProxy(path, fs.par(), mmap=False, order=fs.order, **({} if kfo_arg is None else {'keep_file_open': kfo_arg}))
-            orig._lock = self.wlock
+            set_lock(orig, self.wlock)
             first = (0,) * len(fs.shape)
             do_read(orig, first)                 # lazily creates the persistent ImageOpener
-            if not hasattr(orig, '_opener'):
-                raise SkipScenario(f'{self.kind}: no persisted opener on this platform')
-            opener = orig._opener
+            opener = get_opener(orig)
+            if opener is None:
+                raise SkipScenario(f'{self.kind}: no persisted opener reachable on this proxy')
             self.fobj = WDelegate(opener.fobj, rec, self.wlock)
             opener.fobj = self.fobj
             self.closers = [opener.close_if_mine]
@@ -547,33 +623,35 @@ class Scenario:
         used = {t['proxy'] for t in self.threads}
         if self.kind == 'handle' or used - {'orig'}:
             # copies are taken AFTER the original has done a read (kfo: after its opener exists)
-            c = orig.copy()
-            c._mmap = self.mmap['copy']
+            c = orig.copy()                       # (copies inherit the original's mmap setting)
             self._instrument(c, rec)
             c2 = c.copy()
-            c2._mmap = self.mmap['copy2']
             self._instrument(c2, rec)
             self.proxies.update(copy=c, copy2=c2)
             if self.nolock:                       # canary: every proxy without a lock
                 for p in self.proxies.values():
-                    p._lock = self.wlock
+                    set_lock(p, self.wlock)
         return self
 
     def _instrument(self, p, rec):
         """Wrap whatever lock / file object nibabel gave this proxy — WITHOUT changing what is
         shared with what: a lock or file object that is already a wrapper stays as it is."""
-        if not isinstance(p._lock, WLock):
-            p._lock = WLock(rec, real=p._lock)
+        lk = get_lock(p)
+        if not isinstance(lk, WLock):
+            lk = WLock(rec, real=lk)
+            set_lock(p, lk)
         if self.kind != 'handle':
             do_read(p, (0,) * len(self.fs.shape))      # its own first read (creates an opener if it has none)
-            op = p._opener
+            op = get_opener(p)
+            if op is None:
+                raise SkipScenario(f'{self.kind}: no persisted opener reachable on a copy')
             if not isinstance(op.fobj, WDelegate):
-                op.fobj = WDelegate(op.fobj, rec, p._lock)
+                op.fobj = WDelegate(op.fobj, rec, lk)
                 self.closers.append(op.close_if_mine)
 
     def handle_of(self, name):
         p = self.proxies[name]
-        return self.fobj if self.kind in ('handle', 'fresh') else p._opener.fobj
+        return self.fobj if self.kind in ('handle', 'fresh') else get_opener(p).fobj
 
     def sharing(self):
         """groups of threads by underlying file object, and pairs of proxies that share a file
@@ -587,7 +665,7 @@ class Scenario:
         names = sorted(self.proxies)
         for a in names:
             for b in names:
-                if a < b and self.handle_of(a) is self.handle_of(b) and self.proxies[a]._lock is not self.proxies[b]._lock:
+                if a < b and self.handle_of(a) is self.handle_of(b) and get_lock(self.proxies[a]) is not get_lock(self.proxies[b]):
                     bad.append((a, b))
         return list(groups.values()), bad
 
@@ -646,7 +724,7 @@ class Runner:
             out = []
             try:
                 if t.get('outer'):
-                    with p._lock:
+                    with get_lock(p):
                         for ix in t['reads']:
                             out.append(arr_sig(do_read(p, ix)))
                 else:
@@ -722,7 +800,7 @@ class Runner:
             if sc.kind == 'fresh':
                 lock_free = all(l.depth == 0 for l in sc.factory_locks)
             else:
-                lock_free = all(p._lock.depth == 0 for p in sc.proxies.values() if isinstance(p._lock, WLock))
+                lock_free = all(get_lock(p).depth == 0 for p in sc.proxies.values() if isinstance(get_lock(p), WLock))
         finally:
             sc.close()
         return {'ok': ok, 'trace': trace, 'eff': eff, 'results': results, 'errors': errors,
@@ -1086,6 +1164,19 @@ def run(chk: Check):
     if not _op.HAVE_INDEXED_GZIP:       # without indexed_gzip a .gz path proxy opens a private handle per read
         all_scs = [sc for sc in all_scs if sc.kind not in ('gz_def', 'gz_false')]
         scs = [sc for sc in scs if sc.kind not in ('gz_def', 'gz_false')]
+    # scenarios whose private state (lock, persisted opener, lock creation) cannot be reached are skipped, recorded
+    usable_scs = []
+    for sc in all_scs:
+        try:
+            rec.reset(0)
+            sc.build(rec, chk.workdir)
+            sc.close()
+            usable_scs.append(sc)
+        except SkipScenario as e:
+            chk.extra.setdefault('degraded', []).append(f'scenario skipped ({sc.name}): {e}')
+    have_canary = bool(usable_scs) and usable_scs[0] is canary
+    n_core = sum(1 for sc in usable_scs if sc is canary or any(sc is x for x in scs))
+    all_scs = usable_scs
     progs, wl = model_programs(chk, all_scs, probe)
     singles = [runner.single(sc) for sc in all_scs]
 
@@ -1096,7 +1187,7 @@ def run(chk: Check):
     for si, sc in enumerate(all_scs):
         total = sum(0 if p == '-' else p.count(',') + 1 for p in progs[si])
         seen = set()
-        is_core = si < len(scs) + 1
+        is_core = si < n_core
         if is_core:
             it = enum_preempts(total, len(sc.threads), 3 if len(sc.threads) == 2 and chk.tier == 'thorough' else maxp)
             pols = itertools.chain((policy_preempt(pre) for pre in it),
@@ -1162,20 +1253,21 @@ def run(chk: Check):
                 mixing_seen += 1
     chk.extra['schedules_per_scenario'] = per_sc
     chk.extra['canary_mixing_schedules'] = mixing_seen
-    if mixing_seen == 0:
+    if mixing_seen == 0 and have_canary:
         report(chk, 'harness_error', case={'scenario': canary.desc()}, found_input=False,
                       predicate='canary: with the lock disabled no enumerated schedule mixed up data — the scheduler '
                                 'is not exercising interleavings')
     # the model's refuting schedule on the implementation (C14_without_lock_refuted): seek0 seek1 read0 read1
-    r = runner.run(canary, policy_trace([0, 1, 0, 1], policy_preempt({})))
-    ci = 0
-    wit = r['ok'] and r['results'][0] != singles[ci][0]
-    chk.count(key=('witness', tuple(r['trace'])), tag='canary_nolock')
-    chk.extra['without_lock_witness_reproduced_on_implementation'] = bool(wit)
-    if not wit:
-        report(chk, 'harness_error', case={'scenario': canary.desc(), 'schedule': r['trace']}, found_input=False,
-                      predicate='C14_without_lock_refuted witness schedule does not mix data on the implementation '
-                                'with the lock disabled')
+    if have_canary:
+        r = runner.run(canary, policy_trace([0, 1, 0, 1], policy_preempt({})))
+        ci = 0
+        wit = r['ok'] and r['results'][0] != singles[ci][0]
+        chk.count(key=('witness', tuple(r['trace'])), tag='canary_nolock')
+        chk.extra['without_lock_witness_reproduced_on_implementation'] = bool(wit)
+        if not wit:
+            report(chk, 'harness_error', case={'scenario': canary.desc(), 'schedule': r['trace']}, found_input=False,
+                   predicate='C14_without_lock_refuted witness schedule does not mix data on the implementation '
+                             'with the lock disabled')
 
     # ================= (c) free-running real threads (smoke; lazily created persistent opener)
     part_c(chk, rec)
@@ -1189,8 +1281,8 @@ def run(chk: Check):
         f.rec = rec
         rec.reset(0)
         p = ArrayProxy(f, files[0].par())
-        chk.extra['observation_reshape_shares_lock'] = bool(p.reshape((33, 6))._lock is p._lock)
-        chk.extra['observation_copy_shares_lock'] = bool(p.copy()._lock is p._lock)
+        chk.extra['observation_reshape_shares_lock'] = bool(get_lock(p.reshape((33, 6))) is get_lock(p))
+        chk.extra['observation_copy_shares_lock'] = bool(get_lock(p.copy()) is get_lock(p))
         chk.extra['observation_copy_keeps_order'] = bool(proxy_order(files[2], 'copy') == files[2].order)
     except Exception as e:  # noqa
         chk.extra['observation_reshape_shares_lock'] = f'error {e!r}'
@@ -1274,7 +1366,14 @@ def part_a(chk, rec, probe):
         fs = files[fi]
         if (fi, v) not in built:
             rec.reset(0)
-            built[(fi, v)] = variants_for(fs, rec, chk.workdir, v)
+            try:
+                built[(fi, v)] = variants_for(fs, rec, chk.workdir, v)
+            except SkipScenario as e:
+                built[(fi, v)] = None
+                chk.extra.setdefault('degraded', []).append(f'call-sequence variant {v} skipped: {e}')
+        if built[(fi, v)] is None:
+            obs.append(None)
+            continue
         sc, proxy, mm = built[(fi, v)]
         try:
             line, _ = read_request(fs, ix, mm, probe, outer, proxy.order)
@@ -1295,7 +1394,7 @@ def part_a(chk, rec, probe):
             continue
         try:
             if outer:
-                with proxy._lock:
+                with get_lock(proxy):
                     got = do_read(proxy, ix)
             else:
                 got = do_read(proxy, ix)
@@ -1306,8 +1405,9 @@ def part_a(chk, rec, probe):
                     'data': b''.join(rec.data[None]), 'lock_free': sc.wlock.depth == 0,
                     'value_ok': err is None and got.shape == want.shape and np.array_equal(
                         got, want * fs.slope + fs.inter if (fs.slope, fs.inter) != (1.0, 0.0) else want)})
-    for (fi, v), (sc, _, _) in built.items():
-        sc.close()
+    for (fi, v), b in built.items():
+        if b is not None:
+            b[0].close()
     out = run_model(PROP, lines)
     lines2 = []
     for ci, (fi, v, ix, outer) in enumerate(cases):
@@ -1404,8 +1504,12 @@ def part_lock_kind(chk, workdir=None):
     cands = {'handle proxy': h, 'copy of handle proxy': h.copy(), 'path proxy keep_file_open': pth,
              'copy of path proxy': pth.copy(), 'unpickled path proxy': pickle.loads(pickle.dumps(pth)),
              'reshaped handle proxy': h.reshape((33, 6))}
+    if lock_attr(h) is None:
+        if chk is not None:
+            chk.extra.setdefault('degraded', []).append("lock-kind probes skipped: the proxy's lock is not reachable under any known name")
+        return bad
     for name, p in cands.items():
-        lk = p._lock
+        lk = get_lock(p)
         a = lk.acquire(False)
         b = lk.acquire(False) if a else False
         if b:
@@ -1418,7 +1522,7 @@ def part_lock_kind(chk, workdir=None):
             bad.append((name, f'{name}: proxy._lock is not re-entrant (second non-blocking acquire by the same thread '
                         'failed): a caller that holds the proxy lock around a read would deadlock; the model '
                         'and C14_programs_well_locked (outer_locked) assume threading.RLock'))
-    if h.copy()._lock is not h._lock:
+    if get_lock(h.copy()) is not get_lock(h):
         bad.append(('copy shares lock', 'copy() of a proxy over an open handle does not share its lock'))
     # copy() at every point of a history: whatever shares one OS-level file object shares the lock
     gzp = os.path.join(workdir or chk.workdir, 'lockkind.dat.gz')
@@ -1444,9 +1548,10 @@ def part_lock_kind(chk, workdir=None):
         do_read(fam['copy of (copy before any read) after its read'], 'W')
 
         def os_file(q):
-            if q._has_fh():
-                return q.file_like
-            op = getattr(q, '_opener', None)
+            fl = q.file_like                       # public attribute
+            if hasattr(fl, 'read') and hasattr(fl, 'seek'):
+                return fl
+            op = get_opener(q)
             return None if op is None else op.fobj
         names = list(fam)
         for i, a in enumerate(names):
@@ -1454,11 +1559,11 @@ def part_lock_kind(chk, workdir=None):
                 fa, fb = os_file(fam[a]), os_file(fam[b])
                 if chk is not None:
                     chk.count(key=('sharing', hname, a, b), tag='lock_sharing_pair')
-                if fa is not None and fa is fb and fam[a]._lock is not fam[b]._lock:
+                if fa is not None and fa is fb and get_lock(fam[a]) is not get_lock(fam[b]):
                     bad.append((f'{hname}: {a} / {b}', f'{hname}: "{a}" and "{b}" use one underlying file object (one file '
                                 'position) but different locks — concurrent reads through them are not protected'))
         for q in fam.values():
-            op = getattr(q, '_opener', None)
+            op = get_opener(q)
             if op is not None:
                 try:
                     op.close_if_mine()
@@ -1494,7 +1599,11 @@ def part_c(chk, rec):
             wl = WLock(rec)
             f.rec, f.wlock = rec, wl
             p = ArrayProxy(f, fs.par())
-            p._lock = wl
+            try:
+                set_lock(p, wl)
+            except SkipScenario as e:
+                chk.extra.setdefault('degraded', []).append(f'free-running handle part: {e}')
+                f.wlock = None
             proxies = [p, p.copy(), p.copy().copy(), p] * 2
         res, errs = [None] * 8, [None] * 8
         start = threading.Barrier(8)
@@ -1519,8 +1628,8 @@ def part_c(chk, rec):
         bad = stuck or any(errs) or res != want
         if kind == 'handle' and any(rec.unheld[i] for i in range(8)):
             bad = True
-        if kind == 'kfo' and hasattr(p, '_opener'):
-            p._opener.close_if_mine()
+        if kind == 'kfo' and get_opener(p) is not None:
+            get_opener(p).close_if_mine()
         if bad:
             report(chk, 'property_violation', case={'free_running': kind, 'rep': rep, 'seed': chk.seed},
                           predicate='8 free-running threads: ' + ('stuck thread' if stuck else
@@ -1634,7 +1743,7 @@ def _replay(chk, obj):
         err = None
         try:
             if c.get('outer'):
-                with proxy._lock:
+                with get_lock(proxy):
                     do_read(proxy, ix)
             else:
                 do_read(proxy, ix)
